@@ -86,3 +86,55 @@ pub fn mirror_selfcheck(m: &ProtocolMessage) -> Result<(), String> {
     }
     Ok(())
 }
+
+// ---------------------------------------------------------------------------------------------
+// Mirror of a signed entry, to craft forgeries through the public encoding.
+
+#[derive(Serialize, Deserialize, Clone, Debug, PartialEq)]
+pub struct MSigned {
+    pub signature: MSig,
+    pub entry: MEntry,
+}
+
+#[derive(Serialize, Deserialize, Clone, Debug, PartialEq)]
+pub struct MSig {
+    pub author: ([u8; 32], [u8; 32]),
+    pub namespace: ([u8; 32], [u8; 32]),
+}
+
+#[derive(Serialize, Deserialize, Clone, Debug, PartialEq)]
+pub struct MEntry {
+    pub id: bytes::Bytes,
+    pub record: MRecord,
+}
+
+#[derive(Serialize, Deserialize, Clone, Debug, PartialEq)]
+pub struct MRecord {
+    pub len: u64,
+    pub hash: [u8; 32],
+    pub timestamp: u64,
+}
+
+impl MSigned {
+    pub fn from_real(e: &SignedEntry) -> MSigned {
+        let b = postcard::to_stdvec(e).expect("serialize entry");
+        postcard::from_bytes(&b).expect("entry -> mirror")
+    }
+    /// None if the bytes do not even deserialize as a signed entry.
+    pub fn to_real(&self) -> Option<SignedEntry> {
+        let b = postcard::to_stdvec(self).expect("serialize mirror");
+        postcard::from_bytes(&b).ok()
+    }
+    pub fn selfcheck(e: &SignedEntry) -> Result<(), String> {
+        let a = postcard::to_stdvec(e).map_err(|e| e.to_string())?;
+        let m: MSigned = postcard::from_bytes(&a).map_err(|e| format!("entry mirror decode: {e}"))?;
+        let b = postcard::to_stdvec(&m).map_err(|e| e.to_string())?;
+        if a != b {
+            return Err("signed-entry mirror drift".into());
+        }
+        if m.entry.id.len() < 64 || m.entry.record.timestamp != e.timestamp() || m.entry.record.len != e.content_len() {
+            return Err("signed-entry mirror field drift".into());
+        }
+        Ok(())
+    }
+}
